@@ -266,15 +266,24 @@ def db_stamp_full():
             else:
                 for v in m:
                     h.update(deep_dump(v).encode())
-    import peptacular.constants as c
-    import peptacular.chem.chem_constants as cc
-    for mod in (c, cc):
+    h.update(module_tables_digest().encode())
+    return h.hexdigest()
+
+
+def module_tables_digest(only=None):
+    """content digest of every module-level dict / list / set / tuple of every loaded peptacular module"""
+    import sys
+    h = hashlib.sha1()
+    for name in sorted(m for m in sys.modules if m == 'peptacular' or m.startswith('peptacular.')):
+        mod = sys.modules[name]
+        if mod is None:
+            continue
         for k in sorted(vars(mod)):
             v = vars(mod)[k]
             if k.startswith('__') or isinstance(v, (types.ModuleType, types.FunctionType, type)):
                 continue
             if isinstance(v, (dict, list, set, frozenset, tuple)):
-                h.update(k.encode())
+                h.update((name + '.' + k).encode())
                 h.update(deep_dump(v).encode())
     return h.hexdigest()
 
@@ -505,7 +514,7 @@ def make_specs():
                                                    return_type='label'),
       ('a', 'ion_types_all', 'loss1'), params=P(a='sequence', ion_types_all='ion_types', loss1='losses'))
     F('Fragmenter', lambda w: pt.Fragmenter(w['a']).fragment('b', 1, losses=w['losses'], water_loss=True), ('a', 'losses'),
-      api='Fragmenter', params=P(a='sequence', losses='losses'))
+      api='Fragmenter', params=P())     # composite (constructor + .fragment): compared dynamically only
     F('get_mods', lambda w: pt.get_mods(w['a']), ('a',), params=P(a='sequence'))
     F('pop_mods', lambda w: pt.pop_mods(w['a']), ('a',), params=P(a='sequence'))
     for nm in ('is_ambiguous', 'is_modified', 'is_sequence_valid', 'sequence_length', 'strip_mods', 'sort', 'serialize'):
@@ -818,7 +827,17 @@ def task_single(si):
                 continue
             observed.setdefault(s.api, set()).add(s.params.get(k, '?' + k))
     if db_stamp_full() != full0:
-        fails.append(fail('db-disturbed', si, ['<all single calls>'], 'content digest of the EntryDb maps / constants tables changed'))
+        # find the call that did it
+        culprit = None
+        for s in st.specs:
+            before = db_stamp_full()
+            run_call(s, partial_copy(st.worlds[si], st.uses[si][s.name]))
+            if db_stamp_full() != before:
+                culprit = s
+                break
+        fails.append(fail('global-state-disturbed', si, [culprit.name if culprit else '<all single calls>'],
+                          (culprit.api if culprit else '?') + ': content of the EntryDb maps or of a module-level table of the package '
+                          'changed during the call'))
     return {'evals': n, 'failures': fails, 'observed': {k: sorted(v) for k, v in observed.items()},
             'writes': st.writes[si]}
 
@@ -928,8 +947,12 @@ def eval_case(case):
     for n in names:
         if n not in st.by_name:
             return [{'kind': 'stale-case', 'detail': f'spec {n} no longer exists', 'calls': names, 'shape': case['shape'], 'changed': []}]
+    g0 = db_stamp_full()
     f, _ = single_check(None, st.by_name[names[-1]], w0=w0, wire=case['shape'])
     out += f
+    if db_stamp_full() != g0:
+        out.append(fail('global-state-disturbed', case['shape'], names, st.by_name[names[-1]].api +
+                        ': content of the EntryDb maps or of a module-level table of the package changed during the call'))
     if len(names) > 1 and not st.by_name[names[-1]].random:
         h = history_check(None, names, w0=w0, wire=case['shape'])
         if h:
